@@ -306,26 +306,26 @@ Proof.
 Qed.
 
 (* ================================================================== the loop *)
-Lemma fold_step_None ch ul cls : fold_left (step ch ul) cls None = None.
+Lemma fold_step_None ch ul H cls : fold_left (step ch ul H) cls None = None.
 Proof. induction cls; cbn [fold_left step]; auto. Qed.
 
-Lemma fold_step_spec ch ul cls : forall cm um,
-  (forall cl, In cl cls -> classify ch ul (snd cl) <> DPanic) ->
-  exists cm' um', fold_left (step ch ul) cls (Some (cm, um)) = Some (cm', um') /\
+Lemma fold_step_spec ch ul H cls : forall cm um,
+  (forall cl, In cl cls -> classify ch ul H (snd cl) <> DPanic) ->
+  exists cm' um', fold_left (step ch ul H) cls (Some (cm, um)) = Some (cm', um') /\
     (forall a c, In c (alookup a cm') <->
-       In c (alookup a cm) \/ exists w, In (a, w) cls /\ classify ch ul w = DNote c) /\
+       In c (alookup a cm) \/ exists w, In (a, w) cls /\ classify ch ul H w = DNote c) /\
     (forall a v, In v (alookup a um') <->
-       In v (alookup a um) \/ exists w, In (a, w) cls /\ classify ch ul w = DInit v) /\
+       In v (alookup a um) \/ exists w, In (a, w) cls /\ classify ch ul H w = DInit v) /\
     (NoDup (map fst cm) -> NoDup (map fst cm')) /\ (NoDup (map fst um) -> NoDup (map fst um')).
 Proof.
   induction cls as [|[a0 w0] t IH]; intros cm um Hnp.
   - exists cm, um. cbn [fold_left In]. split; [reflexivity|].
     split; [|split]; [intros; split; [tauto|intros [?|(? & [] & _)]; auto] ..|tauto].
   - cbn [fold_left step snd fst].
-    assert (Hnp' : forall cl, In cl t -> classify ch ul (snd cl) <> DPanic)
+    assert (Hnp' : forall cl, In cl t -> classify ch ul H (snd cl) <> DPanic)
       by (intros; apply Hnp; now right).
     pose proof (Hnp (a0, w0) (or_introl eq_refl)) as H0. cbn [snd] in H0.
-    destruct (classify ch ul w0) as [v|c| |] eqn:Hc; [| | |congruence].
+    destruct (classify ch ul H w0) as [v|c| |] eqn:Hc; [| | |congruence].
     + destruct (IH cm (apush a0 v um) Hnp') as (cm' & um' & Hf & H1 & H2 & H3 & H4).
       exists cm', um'. split; [exact Hf|]. split; [|split; [|split]].
       * intros a c. rewrite H1. split; (intros [?|(w & Hw & Hcl)]; [now left|right]).
@@ -364,21 +364,12 @@ Proof.
         -- destruct Hw as [Hw|Hw]; [inversion Hw; subst; congruence|eauto].
 Qed.
 
-(* ================================================================== no underflow *)
-Lemma count_lt_le w l : NoDup l -> count_lt w l <= w.
+(* ================================================================== no panic *)
+Lemma classify_no_panic ch ul H w : classify ch ul H w <> DPanic.
 Proof.
-  intros Hnd. unfold count_lt.
-  assert (Hn : NoDup (filter (fun x => x <? w) l)) by now apply NoDup_filter.
-  assert (Hi : incl (filter (fun x => x <? w) l) (nrange 0 (N.to_nat w))).
-  { intros x Hx. apply filter_In in Hx. apply In_nrange. lia. }
-  pose proof (NoDup_incl_length Hn Hi) as Hl. rewrite nrange_length in Hl. lia.
-Qed.
-
-Lemma classify_no_panic ch ul w : NoDup ul -> classify ch ul w <> DPanic.
-Proof.
-  intros Hnd. unfold classify. destruct (mem w ul); [discriminate|].
-  pose proof (count_lt_le w ul Hnd). destruct (N.ltb_spec w (count_lt w ul)); [lia|].
-  destruct (contains_any ch (w - count_lt w ul)); discriminate.
+  unfold classify. destruct (mem w ul); [discriminate|].
+  destruct (to_commit_line H w) as [c|]; [|discriminate].
+  destruct (contains_any ch c); discriminate.
 Qed.
 
 Lemma filter_all {A} (p : A -> bool) l : forallb p l = true -> filter p l = l.
@@ -387,80 +378,163 @@ Proof.
   intros H. apply andb_true_iff in H. destruct H as [-> H]. now rewrite IH.
 Qed.
 
-Lemma unstaged_lines_nodup K U Pu : StronglySorted N.lt U ->
-  NoDup (unstaged_lines (compress_lines K) (compress_lines U) (compress_lines Pu)).
+(* the repaired translation has no u32 subtraction: split_file never panics *)
+Theorem split_no_panic attrs K U H : split_file attrs K U H <> SPanic.
 Proof.
-  intros HU. unfold unstaged_lines.
-  eapply Permutation_NoDup; [apply isort_perm|].
-  unfold filter_unstaged. destruct (compress_lines K).
-  - rewrite expand_compress_any. now apply sorted_lt_NoDup.
-  - match goal with |- context [match ?f with [] => [] | _ => _ end] => destruct f eqn:Ef end.
-    + constructor.
-    + rewrite expand_compress_any. apply sorted_lt_NoDup, sort_dedup_sorted.
-Qed.
-
-(* split_file never panics on the inputs the callers pass (the unstaged list is sorted and
-   deduplicated by parse_diff_added_lines_with_insertions) *)
-Theorem split_no_panic attrs K U Pu : StronglySorted N.lt U -> split_file attrs K U Pu <> SPanic.
-Proof.
-  intros HU. unfold split_file. cbv zeta.
+  unfold split_file. cbv zeta.
   set (ch := compress_lines K).
-  set (ul := unstaged_lines ch (compress_lines U) (compress_lines Pu)).
-  destruct (fold_step_spec ch ul (claims attrs) [] []) as (cm & um & Hf & _).
-  - intros cl _. apply classify_no_panic. now apply unstaged_lines_nodup.
+  set (ul := unstaged_lines ch (compress_lines U) H).
+  destruct (fold_step_spec ch ul H (claims attrs) [] []) as (cm & um & Hf & _).
+  - intros cl _. apply classify_no_panic.
   - unfold amap in *. rewrite Hf. discriminate.
 Qed.
 
 (* under no_hidden the filter step is the identity *)
-Lemma unstaged_lines_id K U Pu : StronglySorted N.lt U ->
-  forallb (fun w => negb (mem w K) || mem w Pu) U = true ->
-  unstaged_lines (compress_lines K) (compress_lines U) (compress_lines Pu) = U.
+Lemma unstaged_lines_id K U H : StronglySorted N.lt U ->
+  forallb (fun w => negb (hidden K H w)) U = true ->
+  unstaged_lines (compress_lines K) (compress_lines U) H = U.
 Proof.
   intros HU Hf. unfold unstaged_lines, filter_unstaged.
-  pose proof (expand_compress_any K) as HK. pose proof (expand_compress_any Pu) as HP.
+  pose proof (expand_compress_any K) as HK.
   destruct (compress_lines K) eqn:E.
   - rewrite expand_compress_any. now apply isort_id.
-  - rewrite HK, HP, expand_compress_any, (filter_all _ _ Hf).
+  - rewrite HK, expand_compress_any, (filter_all _ _ Hf).
     destruct U as [|u U']; [reflexivity|].
     rewrite (isort_id _ HU), (dedup_id _ HU), expand_compress_any. now apply isort_id.
+Qed.
+
+(* ================================================================== the line translation *)
+Lemma sum_before_app f A B w : sum_before f (A ++ B) w = sum_before f A w + sum_before f B w.
+Proof. induction A as [|h t IH]; cbn [app sum_before]; [reflexivity|]. rewrite IH. lia. Qed.
+
+Lemma sum_before_none f H w : (forall h, In h H -> w <= h_end h) -> sum_before f H w = 0.
+Proof.
+  induction H as [|h t IH]; intros Hall; cbn [sum_before]; [reflexivity|].
+  rewrite IH by (intros; apply Hall; now right).
+  specialize (Hall h (or_introl eq_refl)). destruct (N.ltb_spec (h_end h) w); lia.
+Qed.
+
+(* the hunk emitted when a kept line (or the end) is reached at position wi ends at wi - 1 *)
+Lemma sum_before_emit f d wi wb w : wb < wi -> wi <= w ->
+  let a := wi - wb - 1 in
+  sum_before f (emit d (if a =? 0 then wb else wb + 1) a) w
+  = if d + a =? 0 then 0 else f (d, (if a =? 0 then wb else wb + 1), a).
+Proof.
+  intros Hlt Hle a. unfold emit. destruct (N.eqb_spec (d + a) 0); [reflexivity|].
+  cbn [sum_before]. unfold h_end, h_start, h_new. cbn [fst snd].
+  destruct (N.eqb_spec a 0); subst a;
+    match goal with |- context [if ?x <? w then _ else _] => destruct (N.ltb_spec x w) end; lia.
+Qed.
+
+Lemma hunks_from_end C : forall Wr wi wb cprev h, wb < wi ->
+  In h (hunks_from C wi wb cprev Wr) -> wi <= h_end h + 1.
+Proof.
+  assert (Hemit : forall d wi wb h, wb < wi ->
+            In h (emit d (if wi - wb - 1 =? 0 then wb else wb + 1) (wi - wb - 1)) -> wi <= h_end h + 1).
+  { intros d wi wb h Hlt Hin. unfold emit in Hin.
+    destruct (N.eqb_spec (d + (wi - wb - 1)) 0); [destruct Hin|].
+    destruct Hin as [<-|[]]. unfold h_end, h_start, h_new. cbn [fst snd].
+    destruct (N.eqb_spec (wi - wb - 1) 0); lia. }
+  induction Wr as [|x t IH]; intros wi wb cprev h Hlt Hin; cbn [hunks_from] in Hin.
+  - eapply Hemit; eauto.
+  - destruct (index_of x C) as [q|].
+    + apply in_app_or in Hin. destruct Hin as [Hin|Hin].
+      * eapply Hemit; eauto.
+      * apply IH in Hin; lia.
+    + apply IH in Hin; lia.
+Qed.
+
+Lemma increasing_spec l : increasing l = true -> StronglySorted N.lt l.
+Proof.
+  induction l as [|x t IH]; cbn [increasing]; intros H; constructor.
+  - apply IH. now apply andb_true_iff in H.
+  - apply andb_true_iff in H. destruct H as [H _]. rewrite forallb_forall in H.
+    apply Forall_forall. intros y Hy. specialize (H y Hy). lia.
+Qed.
+
+Lemma kept_pos_In C Wr : forall i w x c, In (w, x) (enum_from i Wr) -> index_of x C = Some c ->
+  In c (kept_pos C Wr).
+Proof.
+  intros i w x c Hin Hc. unfold kept_pos. apply in_flat_map. exists x. split.
+  - now apply enum_bounds in Hin.
+  - rewrite Hc. now left.
+Qed.
+
+(* the invariant of the walk: for every kept line (w, x) of the rest of W, at position c of C,
+   c + (new lines of hunks ending before w) + wb = w + cprev + (old lines of those hunks) *)
+Lemma translate_from C : forall Wr wi wb cprev, wb < wi ->
+  StronglySorted N.lt (kept_pos C Wr) -> Forall (N.lt cprev) (kept_pos C Wr) ->
+  forall w x c, In (w, x) (enum_from wi Wr) -> index_of x C = Some c ->
+  c + sum_before h_new (hunks_from C wi wb cprev Wr) w + wb
+  = w + cprev + sum_before h_old (hunks_from C wi wb cprev Wr) w.
+Proof.
+  induction Wr as [|y t IH]; intros wi wb cprev Hlt Hs Hgt w x c Hin Hc; [destruct Hin|].
+  cbn [hunks_from]. unfold kept_pos in Hs, Hgt. cbn [flat_map] in Hs, Hgt. fold (kept_pos C t) in Hs, Hgt.
+  cbn [enum_from In] in Hin.
+  destruct (index_of y C) as [q|] eqn:Hq.
+  - cbn [app] in Hs, Hgt. inversion Hs as [|? ? Hs' Hq_lt]; subst. inversion Hgt as [|? ? Hcq _]; subst.
+    rewrite !sum_before_app.
+    assert (Hw : wi <= w) by (destruct Hin as [Hin|Hin]; [inversion Hin; lia | apply enum_bounds in Hin; lia]).
+    rewrite !(sum_before_emit _ _ wi wb w Hlt Hw). cbn [h_new h_old fst snd].
+    destruct Hin as [Hin|Hin].
+    + inversion Hin; subst w x. rewrite Hq in Hc. inversion Hc; subst q.
+      rewrite !sum_before_none by (intros h Hh; apply hunks_from_end in Hh; lia).
+      destruct (N.eqb_spec (c - cprev - 1 + (wi - wb - 1)) 0); lia.
+    + pose proof (IH (wi + 1) wi q ltac:(lia) Hs' Hq_lt w x c Hin Hc) as E.
+      apply enum_bounds in Hin.
+      destruct (N.eqb_spec (q - cprev - 1 + (wi - wb - 1)) 0); lia.
+  - cbn [app] in Hs, Hgt. destruct Hin as [Hin|Hin]; [inversion Hin; subst; congruence|].
+    apply (IH (wi + 1) wb cprev ltac:(lia) Hs Hgt w x c Hin Hc).
+Qed.
+
+(* the repaired translation is exact: the commit line of a kept work-tree line is its position in C *)
+Theorem to_commit_line_exact C W w x c : ordered C W = true ->
+  at_pos W w x -> index_of x C = Some c -> to_commit_line (hunks_of C W) w = Some c.
+Proof.
+  intros Ho Hat Hc. unfold ordered in Ho. apply increasing_spec in Ho.
+  assert (Hpos : Forall (N.lt 0) (kept_pos C W)).
+  { apply Forall_forall. intros q Hq. unfold kept_pos in Hq. apply in_flat_map in Hq.
+    destruct Hq as (y & _ & Hq). destruct (index_of y C) as [q'|] eqn:E; [|destruct Hq].
+    destruct Hq as [<-|[]]. apply index_from_Some, enum_bounds in E. lia. }
+  pose proof (translate_from C W 1 0 0 ltac:(lia) Ho Hpos w x c Hat Hc) as E.
+  fold (hunks_of C W) in E. unfold to_commit_line.
+  destruct (N.ltb_spec (w + sum_before h_old (hunks_of C W) w) (sum_before h_new (hunks_of C W) w)); [lia|].
+  f_equal. lia.
 Qed.
 
 (* ================================================================== the split is exact *)
 Section Exact.
 Variables P C W : list N.
 Hypothesis HW : NoDup W.
-Hypothesis Hsc : shift_consistent P C W = true.
+Hypothesis Hord : ordered C W = true.
+Hypothesis Hnh : no_hidden P C W = true.
 
 Let K := committed P C.
 Let U := unstaged C W.
+Let Hks := hunks_of C W.
 Let ch := compress_lines K.
-
-Lemma sc_no_hidden : no_hidden P C W = true.
-Proof. unfold shift_consistent in Hsc. now apply andb_true_iff in Hsc. Qed.
-Lemma sc_offsets : offsets_ok C W = true.
-Proof. unfold shift_consistent in Hsc. now apply andb_true_iff in Hsc. Qed.
 
 Lemma U_spec w : In w U <-> exists x, at_pos W w x /\ ~ In x C.
 Proof.
   unfold U, unstaged. rewrite pos_from_In. unfold at_pos.
-  split; intros (x & Hx & H); exists x; split; auto.
-  - apply negb_true_iff, mem_false_In in H. exact H.
-  - apply negb_true_iff, mem_false_In. exact H.
+  split; intros (x & Hx & Hf); exists x; split; auto.
+  - apply negb_true_iff, mem_false_In in Hf. exact Hf.
+  - apply negb_true_iff, mem_false_In. exact Hf.
 Qed.
 
 Lemma K_spec c : In c K <-> exists y, at_pos C c y /\ ~ In y P.
 Proof.
   unfold K, committed. rewrite pos_from_In. unfold at_pos.
-  split; intros (x & Hx & H); exists x; split; auto.
-  - apply negb_true_iff, mem_false_In in H. exact H.
-  - apply negb_true_iff, mem_false_In. exact H.
+  split; intros (x & Hx & Hf); exists x; split; auto.
+  - apply negb_true_iff, mem_false_In in Hf. exact Hf.
+  - apply negb_true_iff, mem_false_In. exact Hf.
 Qed.
 
 (* what the loop body does with a work-tree line, in terms of the three versions *)
 Lemma classify_spec w x : at_pos W w x ->
-  (~ In x C -> classify ch U w = DInit w) /\
+  (~ In x C -> classify ch U Hks w = DInit w) /\
   (In x C -> exists c, index_of x C = Some c /\
-             classify ch U w = if mem x P then DDrop else DNote c).
+             classify ch U Hks w = if mem x P then DDrop else DNote c).
 Proof.
   intros Hat. split.
   - intros Hx. unfold classify.
@@ -470,12 +544,8 @@ Proof.
     assert (Hm : mem w U = false).
     { apply mem_false_In. intros Hin. apply U_spec in Hin. destruct Hin as (y & Hy & Hny).
       assert (y = x) by (eapply enum_fun; eauto). subst. tauto. }
-    rewrite Hm.
-    pose proof sc_offsets as Ho. unfold offsets_ok in Ho. rewrite forallb_forall in Ho.
-    specialize (Ho (w, x) Hat). cbn [fst snd] in Ho. fold (index_of x C) in Hc. rewrite Hc in Ho.
-    fold U in Ho. apply andb_true_iff in Ho. destruct Ho as [Ho1 Ho2].
-    destruct (N.ltb_spec w (count_lt w U)); [lia|].
-    apply N.eqb_eq in Ho2. rewrite Ho2.
+    rewrite Hm. fold (index_of x C) in Hc.
+    unfold Hks. rewrite (to_commit_line_exact C W w x c Hord Hat Hc).
     destruct (index_of_Some _ _ _ Hc) as [HatC _].
     destruct (mem x P) eqn:HP.
     + assert (Hk : contains_any ch c = false).
@@ -489,20 +559,17 @@ Proof.
       now rewrite Hk.
 Qed.
 
-Lemma ul_is_U :
-  unstaged_lines ch (compress_lines U) (compress_lines (pure_ins C W)) = U.
-Proof.
-  unfold ch. apply unstaged_lines_id; [apply pos_from_sorted|]. exact sc_no_hidden.
-Qed.
+Lemma ul_is_U : unstaged_lines ch (compress_lines U) Hks = U.
+Proof. unfold ch. apply unstaged_lines_id; [apply pos_from_sorted|]. exact Hnh. Qed.
 
 Theorem split_exact_holds attrs : attrs_wf W attrs ->
   exists note ini,
-    split_file attrs (committed P C) (unstaged C W) (pure_ins C W) = SOk note ini /\
+    split_file attrs (committed P C) (unstaged C W) (hunks_of C W) = SOk note ini /\
     split_exact P C W attrs note ini.
 Proof.
   intros [Hex Hfun].
-  unfold split_file. cbv zeta. fold K U ch. rewrite ul_is_U.
-  destruct (fold_step_spec ch U (claims attrs) [] []) as (cm & um & Hf & Hcm & Hum & Hn1 & Hn2).
+  unfold split_file. cbv zeta. fold K U Hks ch. rewrite ul_is_U.
+  destruct (fold_step_spec ch U Hks (claims attrs) [] []) as (cm & um & Hf & Hcm & Hum & Hn1 & Hn2).
   { intros [a w] Hin. cbn [snd]. destruct (Hex a w Hin) as [x Hx].
     destruct (classify_spec w x Hx) as [H1 H2].
     destruct (in_dec N.eq_dec x C) as [Hi|Hi].
@@ -570,195 +637,6 @@ Proof.
 Qed.
 End Exact.
 
-(* ================================================================== structural side condition *)
-Fixpoint take_while (f : N -> bool) (l : list N) : list N :=
-  match l with [] => [] | x :: t => if f x then x :: take_while f t else [] end.
-
-Lemma take_drop f l : l = take_while f l ++ drop_while f l.
-Proof. induction l as [|x t IH]; cbn; auto. destruct (f x); cbn; congruence. Qed.
-
-Lemma filter_take_while f l : filter f (take_while f l) = take_while f l.
-Proof. induction l as [|x t IH]; cbn; auto. destruct (f x) eqn:E; cbn; auto. rewrite E. congruence. Qed.
-
-Lemma filter_none {A} (f : A -> bool) l : forallb (fun x => negb (f x)) l = true -> filter f l = [].
-Proof.
-  induction l as [|x t IH]; cbn; auto. intros H. apply andb_true_iff in H. destruct H as [H1 H2].
-  apply negb_true_iff in H1. rewrite H1. auto.
-Qed.
-
-Lemma enum_split l : forall i w x, In (w, x) (enum_from i l) ->
-  exists l1 l2, l = l1 ++ x :: l2 /\ w = i + N.of_nat (length l1).
-Proof.
-  induction l as [|y t IH]; intros i w x H; cbn [enum_from In] in *; [tauto|].
-  destruct H as [H|H].
-  - inversion H; subst. exists [], t. split; auto. cbn. lia.
-  - destruct (IH _ _ _ H) as (l1 & l2 & -> & ->). exists (y :: l1), l2. split; auto. cbn [length]. lia.
-Qed.
-
-Lemma pos_from_app f l1 l2 : forall i,
-  pos_from i f (l1 ++ l2) = pos_from i f l1 ++ pos_from (i + N.of_nat (length l1)) f l2.
-Proof.
-  induction l1 as [|y t IH]; intros i; cbn [app pos_from length].
-  - f_equal. lia.
-  - rewrite IH. replace (i + 1 + N.of_nat (length t)) with (i + N.of_nat (S (length t))) by lia.
-    now destruct (f y).
-Qed.
-
-Lemma pos_from_length f l : forall i, length (pos_from i f l) = length (filter f l).
-Proof. induction l as [|y t IH]; intros i; cbn; auto. destruct (f y); cbn; auto. Qed.
-
-Lemma filter_lt_all w l : (forall x, In x l -> x < w) -> filter (fun x => x <? w) l = l.
-Proof. intros H. apply filter_all, forallb_forall. intros x Hx. specialize (H x Hx). lia. Qed.
-Lemma filter_lt_none w l : (forall x, In x l -> w <= x) -> filter (fun x => x <? w) l = [].
-Proof. intros H. apply filter_none, forallb_forall. intros x Hx. specialize (H x Hx). lia. Qed.
-
-(* the number of selected positions strictly before position i + |l1| *)
-Lemma count_lt_pos_from f l1 x l2 i :
-  count_lt (i + N.of_nat (length l1)) (pos_from i f (l1 ++ x :: l2)) = N.of_nat (length (filter f l1)).
-Proof.
-  unfold count_lt. rewrite pos_from_app, filter_app.
-  rewrite filter_lt_all, filter_lt_none.
-  - now rewrite app_nil_r, pos_from_length.
-  - intros y Hy. apply pos_from_In in Hy. destruct Hy as (z & Hz & _). apply enum_bounds in Hz. lia.
-  - intros y Hy. apply pos_from_In in Hy. destruct Hy as (z & Hz & _). apply enum_bounds in Hz. lia.
-Qed.
-
-Lemma filter_length_split {A} (f : A -> bool) l :
-  (length (filter f l) + length (filter (fun x => negb (f x)) l) = length l)%nat.
-Proof. induction l as [|a t IH]; cbn; auto. destruct (f a); cbn; lia. Qed.
-
-Lemma index_from_app l1 x l2 : forall i, ~ In x l1 ->
-  index_from i x (l1 ++ x :: l2) = Some (i + N.of_nat (length l1)).
-Proof.
-  induction l1 as [|y t IH]; intros i Hn; cbn [app index_from length].
-  - rewrite N.eqb_refl. f_equal. lia.
-  - destruct (N.eqb_spec y x) as [->|Hne]; [exfalso; apply Hn; now left|].
-    rewrite IH by (intros H; apply Hn; now right). f_equal. lia.
-Qed.
-
-Lemma filter_split_at (f : N -> bool) l1 x l2 S1 S2 :
-  f x = true -> ~ In x S1 -> ~ In x (filter f l1) ->
-  filter f (l1 ++ x :: l2) = S1 ++ x :: S2 -> filter f l1 = S1.
-Proof.
-  intros Hfx. rewrite filter_app. cbn [filter]. rewrite Hfx.
-  generalize (filter f l1) as A. generalize (filter f l2) as B. clear.
-  intros B A. revert S1. induction A as [|a A IH]; intros S1 Hn1 Hn2 H; destruct S1 as [|s S1]; cbn [app] in *; auto.
-  - inversion H; subst. exfalso. apply Hn1. now left.
-  - inversion H; subst. exfalso. apply Hn2. now left.
-  - inversion H; subst. f_equal. apply IH; auto; intros Hin; [apply Hn1|apply Hn2]; now right.
-Qed.
-
-Lemma NoDup_app_not_in {A} (l1 : list A) x l2 : NoDup (l1 ++ x :: l2) -> ~ In x l1.
-Proof.
-  intros H Hin. apply NoDup_remove_2 in H. apply H. apply in_app_iff. now left.
-Qed.
-
-Lemma NoDup_filter_local {A} (f : A -> bool) l : NoDup l -> NoDup (filter f l).
-Proof. apply NoDup_filter. Qed.
-
-(* tail_only (and the order of kept lines preserved) makes the computed offset the true one *)
-Theorem tail_only_offsets C W : NoDup C -> NoDup W -> same_order C W = true ->
-  tail_only C W = true -> offsets_ok C W = true.
-Proof.
-  intros HC HW Hso Ht. unfold offsets_ok. apply forallb_forall. intros [w x] Hin. cbn [fst snd].
-  destruct (index_of x C) as [c|] eqn:Hc; [|reflexivity].
-  destruct (enum_split _ _ _ _ Hin) as (W1 & W2 & HWeq & Hw).
-  unfold unstaged. rewrite HWeq, Hw. rewrite count_lt_pos_from.
-  pose proof (filter_length_split (fun y => negb (mem y C)) W1) as Hlen.
-  assert (HxC : In x C) by (now apply index_of_Some in Hc).
-  (* C = S ++ D with S the kept prefix *)
-  set (fW := fun y => mem y W) in *. set (fC := fun y => mem y C) in *.
-  unfold tail_only in Ht. fold fW in Ht.
-  pose proof (take_drop fW C) as HCeq.
-  assert (HS : filter fW C = take_while fW C).
-  { rewrite HCeq at 1. rewrite filter_app, filter_take_while, (filter_none fW _ Ht). apply app_nil_r. }
-  unfold same_order in Hso. apply str_eqb_eq in Hso. fold fW fC in Hso. rewrite HS in Hso.
-  assert (HfCx : fC x = true) by (apply mem_In; exact HxC).
-  (* x sits in S: split S around it *)
-  assert (HxS : In x (take_while fW C)).
-  { rewrite Hso, HWeq. apply filter_In. split; [apply in_app_iff; right; now left|exact HfCx]. }
-  apply in_split in HxS. destruct HxS as (S1 & S2 & HSeq).
-  assert (HnS1 : ~ In x S1).
-  { apply (NoDup_app_not_in S1 x (S2 ++ drop_while fW C)).
-    rewrite app_comm_cons, app_assoc, <- HSeq, <- HCeq. exact HC. }
-  assert (HnW1 : ~ In x (filter fC W1)).
-  { intros H. apply filter_In in H. destruct H as [H _]. revert H.
-    apply (NoDup_app_not_in W1 x W2). now rewrite <- HWeq. }
-  assert (HS1 : filter fC W1 = S1).
-  { eapply filter_split_at; eauto. rewrite <- HWeq, <- Hso. exact HSeq. }
-  assert (Hidx : index_of x C = Some (1 + N.of_nat (length S1))).
-  { unfold index_of. rewrite HCeq, HSeq, <- app_assoc, <- app_comm_cons. now apply index_from_app. }
-  rewrite Hc in Hidx. inversion Hidx; subst c.
-  assert (Hneg : filter (fun y => negb (negb (mem y C))) W1 = filter fC W1).
-  { apply filter_ext. intros y. now rewrite negb_involutive. }
-  cbv beta in Hlen. rewrite Hneg, HS1 in Hlen.
-  apply andb_true_iff. split; lia.
-Qed.
-
-Theorem struct_implies_sc P C W : NoDup C -> NoDup W -> same_order C W = true ->
-  shift_consistent_struct P C W = true -> shift_consistent P C W = true.
-Proof.
-  intros HC HW Hso H. unfold shift_consistent_struct in H. apply andb_true_iff in H.
-  destruct H as [H1 H2]. unfold shift_consistent. rewrite H1. cbn [andb].
-  now apply tail_only_offsets.
-Qed.
-
-(* ------------------------------------------------------------------ pure insertions only *)
-Lemma pure_from_all C : NoDup C -> forall Wr i run C1,
-  C = C1 ++ filter (fun y => mem y C) Wr ->
-  pure_from C i (N.of_nat (length C1)) run Wr
-  = run ++ pos_from i (fun y => negb (mem y C)) Wr.
-Proof.
-  intros HC. induction Wr as [|x t IH]; intros i run C1 Heq; cbn [pure_from pos_from filter] in *.
-  - rewrite app_nil_r in Heq. subst C1. rewrite N.eqb_refl. now rewrite app_nil_r.
-  - destruct (mem x C) eqn:Hm; cbn [negb]; try rewrite Hm in Heq.
-    + assert (Hidx : index_of x C = Some (1 + N.of_nat (length C1))).
-      { unfold index_of. rewrite Heq at 1. apply index_from_app.
-        apply (NoDup_app_not_in C1 x (filter (fun y => mem y C) t)). now rewrite <- Heq. }
-      rewrite Hidx.
-      replace (1 + N.of_nat (length C1) =? N.of_nat (length C1) + 1) with true by lia.
-      replace (1 + N.of_nat (length C1)) with (N.of_nat (length (C1 ++ [x])))
-        by (rewrite app_length; cbn [length]; lia).
-      rewrite (IH (i + 1) [] (C1 ++ [x])); [reflexivity|].
-      rewrite <- app_assoc. exact Heq.
-    + assert (Hidx : index_of x C = None).
-      { apply index_from_None. now apply mem_false_In. }
-      rewrite Hidx. rewrite (IH (i + 1) (run ++ [i]) C1 Heq). now rewrite <- app_assoc.
-Qed.
-
-Lemma filter_mem_all (C W : list N) : (forall x, In x C -> In x W) -> filter (fun y => mem y W) C = C.
-Proof. intros H. apply filter_all, forallb_forall. intros x Hx. apply mem_In. auto. Qed.
-
-Lemma drop_while_all f l : forallb f l = true -> drop_while f l = [].
-Proof.
-  induction l as [|x t IH]; cbn; auto. intros H. apply andb_true_iff in H. destruct H as [-> H]. auto.
-Qed.
-
-(* W = C with extra lines inserted: the side condition holds *)
-Theorem insertions_sc P C W : NoDup C -> NoDup W -> same_order C W = true ->
-  (forall x, In x C -> In x W) -> shift_consistent P C W = true.
-Proof.
-  intros HC HW Hso Hall. apply struct_implies_sc; auto.
-  unfold shift_consistent_struct. apply andb_true_iff. split.
-  - unfold no_hidden. apply forallb_forall. intros w Hw. apply orb_true_iff. right.
-    apply mem_In. unfold pure_ins.
-    change (pure_from C 1 0 [] W) with (pure_from C 1 (N.of_nat (length (@nil N))) [] W).
-    rewrite (pure_from_all C HC W 1 [] []); [exact Hw|].
-    cbn [app]. unfold same_order in Hso. apply str_eqb_eq in Hso.
-    now rewrite <- Hso, filter_mem_all.
-  - unfold tail_only. rewrite drop_while_all; [reflexivity|].
-    apply forallb_forall. intros x Hx. apply mem_In. auto.
-Qed.
-
-Theorem split_exact_insertions P C W attrs : NoDup C -> NoDup W -> same_order C W = true ->
-  (forall x, In x C -> In x W) -> attrs_wf W attrs ->
-  exists note ini,
-    split_file attrs (committed P C) (unstaged C W) (pure_ins C W) = SOk note ini /\
-    split_exact P C W attrs note ini.
-Proof.
-  intros HC HW Hso Hall Hwf. apply split_exact_holds; auto. now apply insertions_sc.
-Qed.
-
 (* ================================================================== refutations *)
 (* a committed AI line of W that the note does not list for its author *)
 Definition lost_committed (P C W : list N) (attrs : list lattr)
@@ -796,28 +674,11 @@ Definition refuted (P C W : list N) (attrs : list lattr) : Prop :=
     (lost_committed P C W attrs note \/ forgotten_uncommitted C W attrs ini) /\
     ~ split_exact P C W attrs note ini.
 
-Ltac solve_refuted_lost P C W attrs note w x c :=
-  split; [vm_compute; reflexivity|]; split; [vm_compute; reflexivity|];
-  split; [vm_compute; reflexivity|];
-  exists note, (@nil lattr); split; [vm_compute; reflexivity|];
-  assert (Hl : lost_committed P C W attrs note);
-  [ exists w, x, s1, c; split; [vm_compute; tauto|]; split; [vm_compute; tauto|];
-    split; [discriminate|]; split; [vm_compute; intuition discriminate|];
-    split; vm_compute; reflexivity
-  | split; [left; exact Hl | apply lost_not_exact; exact Hl] ].
-
-(* (a) P = [1], the AI appends line 2 and it is staged (C = [1;2]); line 1 is then deleted in
-   the work tree, unstaged (W = [2]).  Line 2 is committed AI work but the note omits it. *)
-Lemma deletion_refuted : refuted [1] [1; 2] [2] [ai 1 1].
-Proof. solve_refuted_lost [1] [1; 2] [2] [ai 1 1] (@nil (list N * list lrange)) 1 2 2. Qed.
-
-(* (b) as (a), but line 1 is modified 1:1 in the work tree (W = [3;2]; id 3 is the new text) *)
-Lemma modify_refuted : refuted [1] [1; 2] [3; 2] [ai 2 2].
-Proof. solve_refuted_lost [1] [1; 2] [3; 2] [ai 2 2] (@nil (list N * list lrange)) 2 2 2. Qed.
-
-(* (c) the staged AI line 2 is itself rewritten by an AI in the work tree (W = [1;3]):
-   the filter hides work-tree line 2, the note credits commit line 2 to the rewriting session,
-   and the rewritten line is not carried in INITIAL *)
+(* the staged AI line 2 is itself rewritten by an AI in the work tree (W = [1;3]):
+   the filter hides work-tree line 2 (it replaces commit line 2, which this commit added), the
+   note credits commit line 2 to the rewriting session, and the rewritten line is not carried in
+   INITIAL.  Deliberate behaviour of the implementation (a line modified again after staging
+   stays attributed to the commit), false under the line-identity reading of the property. *)
 Lemma hidden_refuted : refuted [1] [1; 2] [1; 3] [ai 2 2].
 Proof.
   split; [vm_compute; reflexivity|]. split; [vm_compute; reflexivity|].
@@ -828,31 +689,6 @@ Proof.
     split; [discriminate|]. split; [vm_compute; intuition discriminate|]. reflexivity. }
   split; [right; exact Hf | apply forgotten_not_exact; exact Hf].
 Qed.
-
-(* ================================================================== non-vacuity *)
-(* P = [1;2;3].  The AI writes 12, 10, 11, 14, 13; the lines 10 and 14 are staged
-   (C = [1;2;10;14;3]); W = [1;12;2;10;11;14;3;13] keeps pure insertions above (12), inside (11)
-   and below (13) the committed AI lines. *)
-Definition nv_P : list N := [1; 2; 3].
-Definition nv_C : list N := [1; 2; 10; 14; 3].
-Definition nv_W : list N := [1; 12; 2; 10; 11; 14; 3; 13].
-Definition nv_attrs : list lattr := [ai 2 2; ai 4 6; ai 8 8].
-
-Lemma nonvacuous :
-  wf3 nv_P nv_C nv_W = true /\ attrs_wfb nv_W nv_attrs = true /\
-  shift_consistent nv_P nv_C nv_W = true /\
-  (committed nv_P nv_C, unstaged nv_C nv_W, pure_ins nv_C nv_W) = ([3; 4], [2; 5; 8], [2; 5; 8]) /\
-  run_spec nv_P nv_C nv_W nv_attrs
-  = SOk [(s1, [LRange 3 4])] [ai 2 2; ai 5 5; ai 8 8].
-Proof. vm_compute. repeat split. Qed.
-
-(* a case with a replaced tail: deletions below every kept line do not disturb the offsets *)
-Lemma nonvacuous_tail :
-  wf3 [1; 2] [1; 10; 2] [11; 1; 10; 12] = true /\
-  shift_consistent [1; 2] [1; 10; 2] [11; 1; 10; 12] = true /\
-  run_spec [1; 2] [1; 10; 2] [11; 1; 10; 12] [ai 1 1; ai 3 4]
-  = SOk [(s1, [LSingle 2])] [ai 1 1; ai 4 4].
-Proof. vm_compute. repeat split. Qed.
 
 (* the boolean reading of attrs_wf used by the check implies the Prop used by the theorem *)
 Lemma attrs_wfb_wf W attrs : attrs_wfb W attrs = true -> attrs_wf W attrs.
@@ -874,6 +710,67 @@ Proof.
     + inversion Hb; subst. exfalso. apply Hnot. apply in_map_iff. exists (a, w). auto.
     + auto.
 Qed.
+
+Lemma nodupb_NoDup l : nodupb l = true -> NoDup l.
+Proof.
+  induction l as [|y t IH]; [constructor|]. cbn [nodupb]. intros H.
+  apply andb_true_iff in H. destruct H as [H1 H2]. constructor; auto.
+  apply negb_true_iff, mem_false_In in H1. exact H1.
+Qed.
+
+(* everything decidable: for concrete versions the theorem applies by computation *)
+Theorem split_exact_decidable P C W attrs :
+  wf3 P C W = true -> attrs_wfb W attrs = true -> no_hidden P C W = true ->
+  exists note ini, run_spec P C W attrs = SOk note ini /\ split_exact P C W attrs note ini.
+Proof.
+  intros Hwf Ha Hn. unfold wf3 in Hwf. repeat (apply andb_true_iff in Hwf; destruct Hwf as [Hwf ?]).
+  unfold run_spec. apply split_exact_holds; auto using nodupb_NoDup, attrs_wfb_wf.
+Qed.
+
+(* ================================================================== regression witnesses *)
+Definition holds (P C W : list N) (attrs : list lattr)
+           (note : list (list N * list lrange)) (ini : list lattr) : Prop :=
+  wf3 P C W = true /\ attrs_wfb W attrs = true /\ Known_C04 P C W = false /\
+  run_spec P C W attrs = SOk note ini /\ split_exact P C W attrs note ini.
+
+Ltac solve_holds :=
+  split; [vm_compute; reflexivity|]; split; [vm_compute; reflexivity|];
+  split; [vm_compute; reflexivity|]; split; [vm_compute; reflexivity|];
+  match goal with |- split_exact ?P ?C ?W ?attrs _ _ =>
+    destruct (split_exact_decidable P C W attrs) as (n & i & Hr & Hx);
+      [vm_compute; reflexivity | vm_compute; reflexivity | vm_compute; reflexivity |];
+    vm_compute in Hr; inversion Hr; subst; exact Hx
+  end.
+
+(* the former refutation witnesses (a) and (b): an unstaged deletion / 1:1 modification of a
+   pre-existing line above a staged AI line no longer disturbs the translation *)
+Lemma deletion_fixed : holds [1] [1; 2] [2] [ai 1 1] [(s1, [LSingle 2])] [].
+Proof. solve_holds. Qed.
+Lemma modify_fixed : holds [1] [1; 2] [3; 2] [ai 2 2] [(s1, [LSingle 2])] [].
+Proof. solve_holds. Qed.
+
+(* ================================================================== non-vacuity *)
+(* P = [1;2;3].  The AI writes 12, 10, 11, 14, 13; the lines 10 and 14 are staged
+   (C = [1;2;10;14;3]); W = [1;12;2;10;11;14;3;13] keeps pure insertions above (12), inside (11)
+   and below (13) the committed AI lines. *)
+Definition nv_P : list N := [1; 2; 3].
+Definition nv_C : list N := [1; 2; 10; 14; 3].
+Definition nv_W : list N := [1; 12; 2; 10; 11; 14; 3; 13].
+Definition nv_attrs : list lattr := [ai 2 2; ai 4 6; ai 8 8].
+
+Lemma nonvacuous :
+  (committed nv_P nv_C, unstaged nv_C nv_W, hunks_of nv_C nv_W)
+    = ([3; 4], [2; 5; 8], [(0, 2, 1); (0, 5, 1); (0, 8, 1)]) /\
+  holds nv_P nv_C nv_W nv_attrs [(s1, [LRange 3 4])] [ai 2 2; ai 5 5; ai 8 8].
+Proof. split; [vm_compute; reflexivity|]. solve_holds. Qed.
+
+(* unstaged deletion (line 1), modification (2 -> 20), insertion (21) above and a replaced tail
+   (3 -> 22) below the staged AI lines 10, 11; the AI line 21 is carried *)
+Lemma nonvacuous_edits_above :
+  hunks_of [1; 2; 4; 10; 11; 3] [20; 4; 21; 10; 11; 22] = [(2, 1, 1); (0, 3, 1); (1, 6, 1)] /\
+  holds [1; 2; 4; 3] [1; 2; 4; 10; 11; 3] [20; 4; 21; 10; 11; 22] [ai 3 5]
+        [(s1, [LRange 4 5])] [ai 3 3].
+Proof. split; [vm_compute; reflexivity|]. solve_holds. Qed.
 
 (* A consequence of split_exact that marks the limit of the split: the attributions describe W
    only, so a line of the commit that the work tree no longer has (deleted or rewritten after
